@@ -75,6 +75,11 @@ class Collector:
         (see known_findings.json); None means unclassified => always a VIOLATION.
         """
         self.violation_count += 1
+        if mechanism is None:
+            # (what early-exit rules look at: hits of a classified mechanism must not end
+            # a shard's exploration)
+            self.unclassified_count = getattr(self, "unclassified_count", 0) + 1
+
         self.count("violation:" + clause)
         kept_same = sum(
             1
